@@ -14,7 +14,7 @@
 EXTENDS Naturals, Sequences, TLC, Json
 
 CONSTANTS
-    LeafKinds,   \* subset of {"H1".."H6", "P", "P2" (two lines), "Code", "CodeL" (with language), "Rule", "Tbl", "Html", "Ref"}
+    LeafKinds,   \* subset of {"H1".."H6", "P", "P2" (two lines), "Code", "CodeL" (with language), "CodeF" (fence in the body), "Rule", "Tbl", "Html", "Ref"}
     ContKinds,   \* subset of {"Q", "BL", "OL"}
     MaxNodes,
     MaxDepth
@@ -38,6 +38,8 @@ Leaf(kind, i) ==
       [] kind = "P2" -> B("P", 0, <<W("q" \o Id(i) \o "a"), SB, W("q" \o Id(i) \o "b")>>, <<>>, <<>>, <<>>, "")
       [] kind = "Code" -> B("Code", 0, <<W("code" \o Id(i) \o " line")>>, <<>>, <<>>, <<>>, "")
       [] kind = "CodeL" -> B("Code", 0, <<W("code" \o Id(i))>>, <<>>, <<>>, <<>>, "rust")
+      \* a code block whose body contains a fence line
+      [] kind = "CodeF" -> B("Code", 0, <<W("code" \o Id(i) \o "\n```\nmore" \o Id(i))>>, <<>>, <<>>, <<>>, "")
       [] kind = "Rule" -> B("Rule", 0, <<>>, <<>>, <<>>, <<>>, "")
       [] kind = "Html" -> B("Html", 0, <<>>, <<>>, <<>>, <<>>, "<div>html" \o Id(i) \o "</div>\n")
       [] kind = "Ref" -> B("P", 0, <<T("Link", "note" \o Id(i), <<W("ref" \o Id(i))>>, "inline")>>, <<>>, <<>>, <<>>, "")
